@@ -236,6 +236,8 @@ for _c in _srcmine.special_chars():
     for _v in (_c, _c + " ", " " + _c, " " + _c + " ", _c + _c):
         if _v not in SEPS:
             SEPS.append(_v)
+for _l in ORDINARY:              # word-like literals of the language-independent files: ordinary words of every language
+    ORDINARY[_l] += [w for w in _srcmine.mine()["words"] if w not in ORDINARY[_l]]
 for _n in _srcmine.sizes(41, 300):
     SEPS += [" " * _n, " " * (_n // 2) + "." + " " * (_n - _n // 2 - 1)]
 DECSEP = {"en": "point", "fr": "virgule", "es": "coma", "pt": "vírgula", "it": "virgola", "de": "Komma", "nl": "komma"}
